@@ -244,21 +244,25 @@ def r6(ctx, rep):
             accepts_end = any(c.get("k") == "call" and last_seg(show(c["f"])) == "end" and not c["a"] for c in walk(looked)) or \
                 any(c.get("k") == "call" and show(c["f"]) == "end_expr" for c in walk(looked))
             # climb: is the look-ahead followed, inside the same combinator chain, by something that consumes input?
-            cur, consumed_after = x, False
-            while id(cur) in par:
-                p_ = par[id(cur)]
-                if p_.get("k") == "mcall":
-                    if p_.get("r") is cur:
-                        if p_["m"] in CONSUMING:
-                            consumed_after = True
-                            break
-                    # cur is an argument of p_ (`.then(<look-ahead>)`, `.then_ignore(<look-ahead>)`): go on from p_, what follows p_ in the chain follows the look-ahead
-                    cur = p_
-                    continue
-                if p_.get("k") in ("paren", "ref"):
-                    cur = p_
-                    continue
-                break
+            def climbs(cur, depth=0):
+                while id(cur) in par:
+                    p_ = par[id(cur)]
+                    if p_.get("k") == "mcall":
+                        if p_.get("r") is cur and p_["m"] in CONSUMING:
+                            return True
+                        # cur is an argument of p_ (`.then(<look-ahead>)`, `.then_ignore(<look-ahead>)`): go on from p_, what follows p_ in the chain follows the look-ahead
+                        cur = p_
+                        continue
+                    if p_.get("k") in ("paren", "ref"):
+                        cur = p_
+                        continue
+                    if p_.get("k") == "local" and p_.get("init") is cur and p_["pat"].get("k") == "p_ident" and depth < 3:
+                        # the chain so far is bound to a name (`let at_before_digit = just('@').then(<look-ahead>);`): it goes on where the name is used
+                        uses = [u for u in walk(f["body"]) if u.get("k") == "path" and u["p"] == p_["pat"]["n"] and u["l"] >= p_["l"]]
+                        return bool(uses) and all(climbs(u, depth + 1) for u in uses)
+                    return False
+                return False
+            consumed_after = climbs(x)
             whole_fn_is_lookahead = tail_expr(f["body"]) is x
             key = f"lookahead:{f['name']}:{n}"
             if whole_fn_is_lookahead:
